@@ -242,11 +242,13 @@ pub fn run(opts: &Opts) -> Report {
             let text: String = widths.iter().map(|w| match w { 1 => 'a', 2 => '\u{e9}', 3 => '\u{20ac}', _ => '\u{1f600}' }).collect();
             let mut ops: Vec<String> = vec![format!("m{}", *r2.pick(&[0usize, 1, 2, 3, 7, 100]))];
             for _ in 0..(1 + r2.below(8)) {
+                // (the text is replaced: `with_string` on the resource, which then enters a new store under the interval it has)
+                if r2.chance(9) { let l2 = r2.below(10); ops.push(format!("t{}", if l2 == 0 { "-".to_string() } else { (0..l2).map(|_| (1 + r2.below(4)).to_string()).collect::<Vec<_>>().join(".") })); continue; }
                 if r2.chance(22) { ops.push(format!("m{}", *r2.pick(&[0usize, 1, 2, 3, 5, 100]))); }
                 else { let b = r2.below(len + 1); let e = if r2.chance(12) { b } else if r2.chance(8) { len + 1 + r2.below(3) } else { b + r2.below(len + 1 - b) }; ops.push(format!("s{}.{}", b, e)); }
             }
             let line = format!("px {} {}", widths.iter().map(|w| w.to_string()).collect::<Vec<_>>().join(","), ops.join(" "));
-            rep.count(if ops.iter().skip(1).any(|o| o.starts_with('m')) { "position-index:with-a-later-milestone-pass" } else { "position-index:milestones-first" });
+            rep.count(if ops.iter().any(|o| o.starts_with('t')) { "position-index:with-a-text-replacement" } else if ops.iter().skip(1).any(|o| o.starts_with('m')) { "position-index:with-a-later-milestone-pass" } else { "position-index:milestones-first" });
             rep.case(Some(&line));
             match guarded(std::panic::AssertUnwindSafe(|| px_exec(&text, &ops))) {
                 Ok(out) => rep.model_case(vec![line], vec![out], "position-index"),
@@ -330,9 +332,24 @@ pub fn run(opts: &Opts) -> Report {
 /// (the first time it is created there, later it is copied into a new store), `s<b>.<e>` = an annotation on `[b, e)`
 fn px_exec(text: &str, ops: &[String]) -> String {
     let mut store: Option<AnnotationStore> = None;
+    let mut last_iv = 0usize;
     for op in ops {
+        if let Some(ws) = op.strip_prefix('t') {
+            // the text is replaced on a copy of the resource (it keeps its configuration, index and selections until
+            // `with_string` looks at them), which then enters a new store under the same interval
+            let newtext: String = if ws == "-" { String::new() } else { ws.split('.').map(|w| match w { "1" => 'a', "2" => '\u{e9}', "3" => '\u{20ac}', _ => '\u{1f600}' }).collect() };
+            if let Some(old) = &store {
+                let copy: TextResource = { let r = old.resource("r").unwrap(); let rr: &TextResource = r.as_ref(); rr.clone() };
+                let copy = copy.with_string(newtext);
+                let mut st2 = AnnotationStore::new(Config::default().with_milestone_interval(last_iv));
+                st2.insert(copy).expect("resource with a new text");
+                store = Some(st2);
+            }
+            continue;
+        }
         if let Some(i) = op.strip_prefix('m') {
             let iv: usize = i.parse().unwrap_or(0);
+            last_iv = iv;
             let mut st2 = AnnotationStore::new(Config::default().with_milestone_interval(iv));
             match &store {
                 None => { st2.add_resource(TextResourceBuilder::new().with_id("r").with_text(text.to_string())).expect("resource"); }
